@@ -3,6 +3,7 @@ import Verif.Common.Proto
 import Verif.Common.SemJson
 import Verif.C06.Model
 import Verif.C06.Spec
+import Verif.C06.Iter
 open Lean Verif.Proto Verif.Sem Verif.C06
 
 namespace Verif.C06.Driver
@@ -28,6 +29,20 @@ def jGraph (g : IsoGraph) : Json :=
 def jMap (mp : Mapping) : Json :=
   jList (fun p : Node × Node => Json.arr #[Json.str p.1, Json.str p.2]) mp.reverse
 
+/-- the mapping returned by the LOOP of `_vf2` (Iter.lean); PropsIter.vf2Iter_unique: it is `vf2 a1 a2` whenever
+the fuel suffices -/
+def loopMap (a1 a2 : IsoGraph) : Json :=
+  match vf2Iter a1 a2 (2 ^ 40) with
+  | some (.ok mp) => jMap mp
+  | some (.error .keyError) => Json.str "loop:KeyError"
+  | some (.error .indexError) => Json.str "loop:IndexError"
+  | none => Json.str "loop:fuel"
+
+/-- `sum(len(_vf2_new(mapping, g1, n)) for n in g1)` for the empty and for the returned mapping -/
+def rnewSums (a1 : IsoGraph) (mp : Mapping) : List Nat :=
+  [((dkeys a1).map (fun n => (vf2New (fun _ => false) a1 n).length)).sum,
+   ((dkeys a1).map (fun n => (vf2New (fun x => (mget mp x).isSome) a1 n).length)).sum]
+
 def isoAnswer (properties : Bool) (m1 m2 : MRS) : Except Err Json := do
   let g1 ← mkIsoGraph properties m1
   let g2 ← mkIsoGraph properties m2
@@ -36,7 +51,8 @@ def isoAnswer (properties : Bool) (m1 m2 : MRS) : Except Err Json := do
   let verdict ← isIsomorphic properties m1 m2
   pure (Json.mkObj [
     ("iso", Json.bool verdict),
-    ("map", jMap (vf2 a1 a2)),
+    ("map", loopMap a1 a2),
+    ("rnew", jList jNat (rnewSums a1 (vf2 a1 a2))),
     ("g1", jGraph g1),
     ("a1", jGraph a1),
     ("clean", Json.bool (cleanGraph g1 && cleanGraph g2)),
@@ -63,6 +79,20 @@ def handle (j : Json) : Except String Json := do
       | .error _ => false
     let r := compareBags iso test gold
     pure (jList jNat [r.1, r.2.1, r.2.2])
+  | "compare" => do
+    -- `commands.compare`: one `compare_bags` (default arguments) per item
+    let properties ← getBool j "props"
+    let iso := fun (a b : MRS) =>
+      match isIsomorphic properties a b with
+      | .ok v => v
+      | .error _ => false
+    let items ← getArr j "items"
+    let rows ← items.mapM (fun it => do
+      let test := (← (← getArr it "test").mapM J.ofMRS).map normMRS
+      let gold := (← (← getArr it "gold").mapM J.ofMRS).map normMRS
+      let r := compareBags iso test gold
+      pure (jList jNat [r.1, r.2.1, r.2.2]))
+    pure (Json.arr rows.toArray)
   | _ => throw s!"bad op {op}"
 
 end Verif.C06.Driver
